@@ -1706,6 +1706,48 @@ where
             pvs.push(entry.public_values.clone());
         }
 
+        // The preprocessed layout is self-declared by the proof. The rebuilt AIRs index their
+        // preprocessed row by their own width, so a declared width or instance list that
+        // disagrees with them must be rejected here rather than reach constraint evaluation.
+        if let Some(global) = common.preprocessed.as_ref() {
+            if global.instances.len() != airs.len() {
+                return Err(BatchStarkProverError::Verify(format!(
+                    "preprocessed metadata lists {} instances, proof has {} tables",
+                    global.instances.len(),
+                    airs.len()
+                )));
+            }
+            for (i, (air, meta)) in airs.iter().zip(&global.instances).enumerate() {
+                let expected = BaseAir::<Val<SC>>::preprocessed_width(air);
+                let declared = meta.as_ref().map_or(0, |m| m.width);
+                if declared != expected {
+                    return Err(BatchStarkProverError::Verify(format!(
+                        "table {i}: declared preprocessed width {declared}, expected {expected}"
+                    )));
+                }
+            }
+            // `matrix_to_instance` and the per-instance `matrix_index` must be inverse maps over
+            // the instances that have preprocessed columns.
+            let with_prep = global.instances.iter().flatten().count();
+            let consistent = global.matrix_to_instance.len() == with_prep
+                && global
+                    .matrix_to_instance
+                    .iter()
+                    .enumerate()
+                    .all(|(matrix, &inst)| {
+                        global
+                            .instances
+                            .get(inst)
+                            .and_then(Option::as_ref)
+                            .is_some_and(|m| m.matrix_index == matrix)
+                    });
+            if !consistent {
+                return Err(BatchStarkProverError::Verify(
+                    String::from("inconsistent preprocessed matrix/instance mapping"),
+                ));
+            }
+        }
+
         // Derive lookups from the rebuilt AIRs so the layout always reflects the effective
         // lane counts stored in `proof.table_packing`. The serialized `stark_common` only
         // carries the preprocessed binding, not the lookup contexts.
